@@ -89,4 +89,35 @@ IsEquivalence(S, R) ==
    /\ \A x \in S : <<x, x>> \in R
    /\ \A p \in R : <<p[2], p[1]>> \in R
    /\ \A p \in R : \A z \in S : <<p[2], z>> \in R => <<p[1], z>> \in R
+
+-----------------------------------------------------------------------------
+(* Deeply nested data, symbolically.  Nest(shape, k, leaf) is the leaf wrapped k times:
+     shape "lt"  : x |-> (list x 1)       a fresh two-element list  = pair(x, pair(1, ()))
+     shape "vf"  : x |-> (vector x 1.5)   a vector with a fresh flonum in its last slot
+     shape "car" : x |-> (list x)         = pair(x, ())
+   In "lt" and "vf" the nesting is in a non-last slot and the last slot holds another (non-eq?) object, so a
+   recursive comparison must really recurse k levels; in "car" it may iterate.  The record is
+     [shape |-> .., k |-> .., leaf |-> atom id, aux |-> the atom ids of the constants: <<1, ()>>, <<1.5>>, <<()>>].
+   NestGraph writes the term out as a graph (nodes 1..k are the levels, outermost first); this is feasible for
+   small k only.  For k = 10^4 .. 10^5 the trace specifications use the closed rule SameNest instead.  That the
+   rule is the bisimulation/unfolding equality of the graphs - and that a graph with fewer than k nodes never
+   equals a k-fold nest - is model checked for small k (EquivNestMC.tla, InvDeepNotSmall in EquivMC.tla). *)
+NAtom(a) == [k |-> "atom", a |-> a, c |-> << >>]
+NestGraph(n) ==
+   LET k == n.k
+       lvl(i) == IF n.shape = "vf" THEN [k |-> "vec", a |-> 0, c |-> <<i + 1, k + 2>>]
+                 ELSE [k |-> "pair", a |-> 0, c |-> <<i + 1, k + 2>>]
+       rest == IF n.shape = "lt" THEN <<[k |-> "pair", a |-> 0, c |-> <<k + 3, k + 4>>], NAtom(n.aux[1]), NAtom(n.aux[2])>>
+               ELSE <<NAtom(n.aux[1])>>
+   IN IF k = 0 THEN <<NAtom(n.leaf)>>
+      ELSE [i \in 1..k |-> lvl(i)] \o <<NAtom(n.leaf)>> \o rest
+SameNest(m, n) == IF m.k = 0 \/ n.k = 0 THEN m.k = n.k /\ m.leaf = n.leaf
+                  ELSE m.shape = n.shape /\ m.k = n.k /\ m.leaf = n.leaf /\ m.aux = n.aux
+\* a declared term is either a graph (sym = 0, field g) or a symbolic nest (sym = 1, field nest)
+ExpandLimit == 64
+SameDeclared(x, y) ==
+   IF x.sym = 1 /\ y.sym = 1 THEN SameNest(x.nest, y.nest)
+   ELSE IF x.sym = 1 THEN (x.nest.k <= ExpandLimit /\ SameGraph(NestGraph(x.nest), y.g))   \* deeper than any declared graph
+   ELSE IF y.sym = 1 THEN (y.nest.k <= ExpandLimit /\ SameGraph(x.g, NestGraph(y.nest)))
+   ELSE Compat(x.g[1], y.g[1]) /\ SameGraph(x.g, y.g)
 =======================================================================
